@@ -299,12 +299,43 @@ def evaluate_payload_template(input, context, template):
                 )
             template_string = args[0]
             args = args[1:]
-            try:
-                return template_string.format(*args)
-            except Exception as e:
+            if not isinstance(template_string, str):
                 raise IntrinsicFailure(
-                    "States.Format failed with {}.".format(e)
+                    "States.Format failed, arg[0] is not a string."
                 )
+            """
+            Substitute each {} with the next argument. Only {} is a placeholder
+            (str.format would also accept things like {0.__class__}), and the
+            characters ' { } \\ can be included by escaping them with \\.
+            """
+            result = []
+            index = 0
+            i = 0
+            while i < len(template_string):
+                c = template_string[i]
+                if (c == "\\" and i + 1 < len(template_string)
+                        and template_string[i + 1] in "'{}\\"):
+                    result.append(template_string[i + 1])
+                    i += 2
+                elif template_string.startswith("{}", i):
+                    if index >= len(args):
+                        raise IntrinsicFailure(
+                            "States.Format failed, too few arguments."
+                        )
+                    value = args[index]
+                    index += 1
+                    result.append(
+                        value if isinstance(value, str) else json.dumps(value)
+                    )
+                    i += 2
+                elif c == "{" or c == "}":
+                    raise IntrinsicFailure(
+                        "States.Format failed, unescaped {} in template.".format(c)
+                    )
+                else:
+                    result.append(c)
+                    i += 1
+            return "".join(result)
 
         def asl_intrinsic_StringToJson(args):
             if len(args) != 1:
@@ -645,7 +676,12 @@ def evaluate_payload_template(input, context, template):
         # Evaluate the arguments
         for i, arg in enumerate(arglist):
             if arg.startswith("'"):  # It's an apostrophe delimited string
-                arglist[i] = arg.strip("'")
+                arg = arg[1:-1] if len(arg) > 1 and arg.endswith("'") else arg[1:]
+                # Resolve escaped apostrophes and backslashes, except in the
+                # template of States.Format which resolves its own escapes.
+                if not (normalised_func == "asl_intrinsic_Format" and i == 0):
+                    arg = re.sub(r"\\(['\\])", r"\1", arg)
+                arglist[i] = arg
             elif arg.startswith("$"):  # It's a path
                 arglist[i] = apply_path(input, context, arg)
             elif arg.startswith("States."):  # It's a nested intrinsic function
